@@ -149,6 +149,41 @@ def oracle_threaddup(c, sc, out):
     return verdict
 
 
+def oracle_renamed_or_seed(c, sc, out):
+    """renamed task + `deprecated list --fix`, or the same job submitted from processes with different hash seeds:
+    one job, one body"""
+    m = sc["meta"]
+    rows = replay.parse_log(out["log"])
+    data = dict(scenario=sc, exit=out["exit"], results=out["results"], log=cases.short_log(out, 60))
+    if not cases.usable(out):
+        return "inconclusive"
+    verdict = "ok"
+    overlap, rerun = cases.intervals_ok(rows, 1)
+    nb = cases.count_begins(rows, 1)
+    if m["family"] == "renamed":
+        if overlap or (m["running"] and nb != 1):
+            c.violation("C05:renamed-task-running-launched-again", "a task renamed in the code (deprecated alias, `deprecated list "
+                        "--fix` done) that was still running under its former name was launched again under its new name: "
+                        f"{nb} bodies" + (", two of them at the same time, in the same folder" if overlap else ""), data)
+            verdict = "violation"
+        elif nb != 1 or rerun:
+            c.violation("C05:renamed-task-rerun-after-fix", f"the body of a renamed task whose folder was linked by `deprecated list "
+                        f"--fix` ran {nb} times (the later experiment did not find its success marker under the new name)", data)
+            verdict = "violation"
+    else:
+        ids = {v.get("identifier") for v in out["results"].values() if v and v.get("identifier")}
+        if len(ids) > 1 or nb != 1:
+            c.violation("C05:identifier-depends-on-process", f"the same configuration (job with {m['npre']} pre-tasks) submitted from "
+                        f"processes with hash seeds {m['seeds']} got identifiers {sorted(x[:10] for x in ids)}; the body ran {nb} times", data)
+            verdict = "violation"
+    for r in sc["runs"]:
+        js = (out["results"].get(f"{r['sid']}.{r['run']}") or {}).get("jobs", [])
+        if not js or js[0]["state"] != "DONE":
+            c.violation("C05:renamed-or-reseeded-not-done", f"{r['sid']} reports {js}", data)
+            verdict = "violation"
+    return verdict
+
+
 # ------------------------------------------------------------------ (b), (c)
 def oracle_files(c, sc, out):
     m = sc["meta"]
@@ -218,6 +253,16 @@ def gen_scenarios(c, nref, n_spawn, n_lock):
     n_hist, n_done, n_comp = (10, 5, 14) if c.quick else (80, 30, 210)
     for i in range(n_hist):
         scs.append(cases.sc_history(f"h{i:04d}", gen_history(rng, rng.randrange(4, 11))))
+    # a renamed task (deprecated alias + `deprecated list --fix` between / during the experiments); one job submitted
+    # from processes with different hash seeds
+    scs.append(cases.sc_renamed("r0000", False))
+    scs.append(cases.sc_renamed("r0001", True))
+    scs.append(cases.sc_hashseed("z0000", [rng.randrange(1, 1000) for _ in range(3)], npre=3))
+    if not c.quick:
+        for i in range(4):
+            scs.append(cases.sc_renamed(f"r{i + 2:04d}", i % 2 == 1))
+            scs.append(cases.sc_hashseed(f"z{i + 1:04d}", [rng.randrange(1, 10 ** 6) for _ in range(rng.choice([2, 3, 4]))],
+                                         npre=rng.choice([2, 3, 4])))
     # duplicates from other threads, inside / after the window in which the first submission computes its output
     for i in range(2 if c.quick else 12):
         scs.append(cases.sc_threaddup(f"u{i:04d}", sorted(round(rng.uniform(0.05, 1.0), 2) for _ in range(rng.choice([1, 2, 3]))),
@@ -261,7 +306,7 @@ def gen_scenarios(c, nref, n_spawn, n_lock):
     for i in range(4 if c.quick else 40):
         scs.append(cases.sc_orphan(f"o{i:04d}", n_spawn + (i % 4), rng.choice([1, 1, 2]), round(rng.uniform(0.2, 1.0), 2),
                                    rng.choice([0.0, 0.1])))
-    fam_rank = lambda sc: 0 if (sc["meta"].get("double") or sc["meta"].get("orphan") or sc["meta"].get("truncated")  # noqa
+    fam_rank = lambda sc: 0 if (sc["meta"]["family"] in ("renamed", "hashseed") or sc["meta"].get("double") or sc["meta"].get("orphan") or sc["meta"].get("truncated")  # noqa
                                 or sc["meta"].get("triple") or sc["meta"].get("exit0")) else 1
     if not c.quick:
         rng.shuffle(scs)
@@ -326,7 +371,10 @@ def run(c: Check):
         m = sc["meta"]
         fam = m["family"]
         c.count("family:" + fam)
-        if fam == "threaddup":
+        if fam in ("renamed", "hashseed"):
+            v = oracle_renamed_or_seed(c, sc, o)
+            c.nontrivial.add(json.dumps(m, sort_keys=True))
+        elif fam == "threaddup":
             v = oracle_threaddup(c, sc, o)
             c.count(f"threaddup:duplicates={len(m['offsets'])}")
             if any(off < m["delay"] for off in m["offsets"]):
